@@ -11,7 +11,7 @@ from vlib import cnat, clist
 
 ID = "C18"
 GO_PKG = "./lib/syncx"
-PRIMS = ["sf", "lc", "lim", "ref", "once", "spin", "done", "pool", "rm", "tl", "bar"]
+PRIMS = ["sf", "lc", "lim", "ref", "once", "spin", "done", "pool", "rm", "tl", "bar", "mr", "ir"]
 PRIM_NO = {p: i for i, p in enumerate(PRIMS)}
 
 _SK = [
@@ -39,6 +39,10 @@ _SK = [
     ("spinlock.go", "SpinLock.Unlock", "sk_spin_Unlock"),
     ("onceguard.go", "OnceGuard.Take", "sk_once_Take"),
     ("donechan.go", "DoneChan.Close", "sk_done_Close"),
+    ("managedresource.go", "ManagedResource.Take", "sk_mr_Take"),
+    ("managedresource.go", "ManagedResource.MarkBroken", "sk_mr_MarkBroken"),
+    ("immutableresource.go", "ImmutableResource.Get", "sk_ir_Get"),
+    ("immutableresource.go", "ImmutableResource.maybeRefresh", "sk_ir_maybeRefresh"),
     ("barrier.go", "Guard", "sk_bar_Guard"),
     ("barrier.go", "Barrier.Guard", "sk_bar_BarrierGuard"),
 ]
@@ -46,7 +50,7 @@ GEN_SPEC = {"items": [{"kind": "calls", "file": "lib/syncx/" + f, "func": fn, "a
 
 COQ_FILES = ["theories/C18/Props.v", "theories/C18/Link.v", "theories/C18/ProofsSF.v", "theories/C18/ProofsLC.v",
              "theories/C18/ProofsAO.v", "theories/C18/ProofsPool.v", "theories/C18/ProofsRM.v", "theories/C18/ProofsTL.v",
-             "theories/C18/ProofsRef.v"]
+             "theories/C18/ProofsRef.v", "theories/C18/ProofsMR.v"]
 COQ_TARGETS = ["theories/C18/Props.v", "theories/C18/Link.v", "theories/C18/Exec.v"]
 
 QUICK_N = 330
@@ -147,6 +151,8 @@ def _gen_atomic(rng, prim, tier):
     """lim / ref / once / spin / done: simulate just enough to keep at most one thread blocked"""
     g = rng.randint(2, 6)
     n = rng.randint(1, 3)
+    if prim == "lim" and rng.random() < 0.25:
+        n = 0          # NewLimit(0): nothing can ever be borrowed (blocking Borrow is kept out: see LIMIT0 note)
     scripts = [[] for _ in range(g)]
     sched = []
     out, blocked, locked = 0, None, False
@@ -160,7 +166,7 @@ def _gen_atomic(rng, prim, tier):
             continue
         if prim == "lim":
             code = rng.choice([0, 0, 1, 1, 2, 2, 2])
-            if code == 0 and out >= n and blocked is not None:
+            if code == 0 and out >= n and (blocked is not None or n == 0):
                 code = 1
             scripts[t].append(_op(code))
             if code == 0:
@@ -316,7 +322,17 @@ def _gen_pool(rng, tier):
 
 
 def _gen_tl(rng, tier):
-    kind = rng.randrange(5)
+    kind = rng.randrange(6)
+    if kind == 5:     # NewTimeoutLimit(0): always full -- TryBorrow fails, a timed Borrow times out, Return is an error
+        to = rng.choice([8, 12, 20])
+        ops = [_op(1), _op(2), _op(0, to), _op(1), _op(2)]
+        rng.shuffle(ops)
+        sched = []
+        for o in ops:
+            sched.append(_t(0))
+            if o["code"] == 0:
+                sched.append({"k": "w", "v": to + 40})
+        return {"prim": "tl", "n": 0, "m": 0, "scripts": [ops], "sched": sched}
     if kind == 4:     # signalled while the slot is still taken: keep waiting with the remaining time; give up only
                       # when the (virtual) time spent reaches the timeout
         a1 = rng.choice([10, 30, 300])
@@ -398,7 +414,121 @@ def _gen_lc_chain(rng):
     return {"prim": "lc", "n": 0, "m": 0, "scripts": scripts, "sched": sched}
 
 
+def _gen_mr(rng):
+    """ManagedResource: Take / MarkBroken(id); a gated equal callback holds the write lock while other
+    goroutines run into it.  MarkBroken is only given ids that exist when it is issued, so the outcome
+    does not depend on the order in which the blocked goroutines get the lock afterwards."""
+    g = rng.randint(2, 5)
+    scripts = [[] for _ in range(g)]
+    sched = []
+    cur, ngen, gate = 0, 0, 0
+    for _ in range(rng.randint(3, 9)):
+        free = list(range(g))
+        rng.shuffle(free)
+        a = free.pop()
+        if ngen > 0 and rng.random() < 0.45:
+            # gated MarkBroken of the current (or an older) resource; others pile up behind the write lock
+            gate += 1
+            arg = cur if (cur and rng.random() < 0.8) else rng.randint(1, ngen)
+            scripts[a].append(_op(1, arg, gate))
+            sched.append(_t(a))
+            takes = 0
+            others = free[:rng.randint(0, min(3, len(free)))]
+            forced = ["mb", "take"] if (len(others) >= 2 and cur and rng.random() < 0.6) else []
+            for j, u in enumerate(others):
+                if j < len(forced) and forced[j] == "mb":      # a second report of the same resource ...
+                    scripts[u].append(_op(1, arg, 0))
+                    sched.append(_t(u))
+                    continue
+                if (j < len(forced) and forced[j] == "take") or rng.random() < 0.5:   # ... then a Take in between
+                    scripts[u].append(_op(0))
+                    takes += 1
+                else:
+                    scripts[u].append(_op(1, arg, 0))   # the same report (any other id could race with a blocked Take)
+                sched.append(_t(u))
+            sched.append({"k": "o", "v": gate})
+            if cur == arg:
+                cur = 0
+            if takes and cur == 0:
+                ngen += 1
+                cur = ngen
+        elif rng.random() < 0.6 or ngen == 0:
+            scripts[a].append(_op(0))
+            sched.append(_t(a))
+            if cur == 0:
+                ngen += 1
+                cur = ngen
+        else:
+            arg = cur if (cur and rng.random() < 0.7) else rng.randint(1, ngen)
+            scripts[a].append(_op(1, arg, 0))
+            sched.append(_t(a))
+            if cur == arg:
+                cur = 0
+    t = rng.randrange(g)
+    scripts[t].append(_op(0))          # a final Take shows whether a resource nobody reported was discarded
+    sched.append(_t(t))
+    return {"prim": "mr", "n": 0, "m": 0, "scripts": scripts, "sched": sched}
+
+
+def _gen_ir(rng):
+    """ImmutableResource: fetches that fail (with nil, with a non-nil value, with a typed nil pointer),
+    retry per refresh interval, overlapping fetches with interval 0 (at most one of them succeeds:
+    two overlapping SUCCESSFUL fetches replace the shared resource on HEAD -- see IR_REPLACE note)."""
+    kind = rng.randrange(3)
+    bad = lambda: rng.choice([0, 901, 902, 999])
+    if kind == 0:
+        # failures first, retried only after the interval; then success, shared from then on
+        m = rng.choice([5, 20, 50])
+        ops, sched, v = [], [], 10
+        for _ in range(rng.randint(1, 3)):
+            ops.append(_op(0, bad(), 0, 1))             # a fetch attempt that fails
+            sched.append(_t(0))
+            since = 0
+            for _ in range(rng.randint(0, 2)):          # within the interval: no refetch, the error is served again
+                d = rng.randint(0, m - since)
+                if d:
+                    sched.append({"k": "a", "v": d})
+                    since += d
+                ops.append(_op(0, bad(), 0, rng.choice([0, 1])))
+                sched.append(_t(0))
+            sched.append({"k": "a", "v": m - since + rng.randint(1, 9)})
+        for _ in range(rng.randint(1, 3)):
+            v += 1
+            ops.append(_op(0, v, 0, 0))
+            sched.append(_t(0))
+        return {"prim": "ir", "n": 0, "m": m, "scripts": [ops], "sched": sched}
+    if kind == 1:
+        # interval 0, two overlapping Gets: one succeeds, the (slower or faster) other fails
+        first_ok = rng.random() < 0.5
+        a, b = (_op(0, 11, 1, 0), _op(0, bad(), 2, 1)) if first_ok else (_op(0, bad(), 1, 1), _op(0, 11, 2, 0))
+        opens = [{"k": "o", "v": 1}, {"k": "o", "v": 2}]
+        if rng.random() < 0.5:
+            opens.reverse()
+        scripts = [[a, _op(0, 21, 0, rng.choice([0, 1]))], [b, _op(0, 22, 0, 0)], [_op(0, 23, 0, rng.choice([0, 1])), _op(0, 24, 0, 1)]]
+        sched = [_t(0), {"k": "a", "v": 1}, _t(1)] + opens + [{"k": "a", "v": rng.randint(0, 3)}, _t(2), _t(0), _t(1), _t(2)]
+        return {"prim": "ir", "n": 0, "m": 0, "scripts": scripts, "sched": sched}
+    # sequential mix over several goroutines
+    m = rng.choice([0, 3, 10])
+    g = rng.randint(2, 4)
+    scripts = [[] for _ in range(g)]
+    sched, v = [], 30
+    for _ in range(rng.randint(4, 10)):
+        if rng.random() < 0.35:
+            sched.append({"k": "a", "v": rng.choice([1, 2, 5, 12])})
+            continue
+        t = rng.randrange(g)
+        v += 1
+        fail = 1 if rng.random() < 0.5 else 0
+        scripts[t].append(_op(0, bad() if fail else v, 0, fail))
+        sched.append(_t(t))
+    return {"prim": "ir", "n": 0, "m": m, "scripts": scripts, "sched": sched}
+
+
 def _gen_one(rng, prim, tier):
+    if prim == "mr":
+        return _gen_mr(rng)
+    if prim == "ir":
+        return _gen_ir(rng)
     if prim == "lc" and rng.random() < 0.3:
         return _gen_lc_chain(rng)
     if prim in ("sf", "lc", "bar", "rm", "pool") and rng.random() < 0.3:
@@ -449,6 +579,26 @@ def _directed():
     out.append({"prim": "pool", "n": 2, "m": 10,
                 "scripts": [[_op(0, 0, 1, 0), _op(1), _op(0, 0, 0, 1), _op(0)], [_op(0, 1, 0, 0), _op(0), _op(1)]],
                 "sched": [_t(0), _t(1), g1, _t(1), _t(0), {"k": "a", "v": 50}, _t(0), _t(0), _t(1)]})
+    # negative size: the constructors panic (makechan) on HEAD -- recorded as the reference
+    out.append({"prim": "lim", "n": -1, "m": 0, "scripts": [[]], "sched": []})
+    out.append({"prim": "tl", "n": -2, "m": 0, "scripts": [[]], "sched": []})
+    # ManagedResource: two holders report the same broken r1 (the first equal call blocks), a Take lands in between
+    out.append({"prim": "mr", "n": 0, "m": 0,
+                "scripts": [[_op(0), _op(1, 1, 1), _op(0)], [_op(0), _op(1, 1, 0), _op(0)], [_op(0), _op(0), _op(0)]],
+                "sched": [_t(0), _t(1), _t(2), _t(0), _t(1), _t(2), g1, _t(0), _t(1), _t(2)]})
+    # ImmutableResource: failing fetch with a non-nil value / typed nil pointer; retry only after the interval
+    out.append({"prim": "ir", "n": 0, "m": 10,
+                "scripts": [[_op(0, 999, 0, 1), _op(0, 21, 0, 0), _op(0, 901, 0, 1), _op(0, 23, 0, 0), _op(0, 24, 0, 0)]],
+                "sched": [_t(0), _t(0), {"k": "a", "v": 11}, _t(0), {"k": "a", "v": 11}, _t(0), _t(0)]})
+    # ... interval 0, overlapping Gets: the first succeeds, the slower second fails -- the fetched resource stays
+    out.append({"prim": "ir", "n": 0, "m": 0,
+                "scripts": [[_op(0, 11, 1, 0)], [_op(0, 902, 2, 1), _op(0, 15, 0, 0)], [_op(0, 13, 0, 0)]],
+                "sched": [_t(0), {"k": "a", "v": 1}, _t(1), g1, {"k": "o", "v": 2}, {"k": "a", "v": 1}, _t(2), _t(1)]})
+    # boundary size 0: nothing can be borrowed, Return is an error, a timed Borrow times out
+    out.append({"prim": "lim", "n": 0, "m": 0, "scripts": [[_op(1), _op(2), _op(1)], [_op(2), _op(1)]],
+                "sched": [_t(0), _t(1), _t(0), _t(1), _t(0)]})
+    out.append({"prim": "tl", "n": 0, "m": 0, "scripts": [[_op(1), _op(0, 12), _op(2), _op(1)]],
+                "sched": [_t(0), _t(0), {"k": "w", "v": 60}, _t(0), _t(0)]})
     # Gets arriving while a create callback is still running, limit 1 and 2 (history check only)
     for lim in (1, 2):
         out.append({"prim": "pool", "n": lim, "m": 0, "spec_only": True,
@@ -531,6 +681,10 @@ def _n(v):
 
 def encode(case, obs):
     prim = case["prim"]
+    if case.get("n", 0) < 0:
+        # reference behaviour of HEAD: NewLimit / NewTimeoutLimit with a negative size panic in the constructor
+        ok = bool(obs.get("ctor_panic"))
+        return "mkcase %s 0 0 [] [] %s []" % (cnat(PRIM_NO[prim]), "[]" if ok else "[[(0, 0)]]")
     res = obs.get("results", [])
     scripts = []
     for t, s in enumerate(case["scripts"]):
@@ -615,6 +769,12 @@ def bucket(case, obs):
         out.append("ref:callback-panicked")
     if case["prim"] == "rm" and any(e[1] == 3 and e[2] == 1 and e[5] == 1 for e in h):
         out.append("rm:close-error")
+    if case["prim"] in ("lim", "tl") and case.get("n", 1) <= 0:
+        out.append("size<=0")
+    if case["prim"] == "ir" and any(e[1] == 3 and e[5] == 1 and e[3] != 0 for e in h):
+        out.append("ir:error-with-nonnil-value")
+    if case["prim"] == "mr" and sum(1 for e in h if e[1] == 2) >= 2:
+        out.append("mr:regenerated")
     if case.get("spec_only"):
         out.append("history-only")
     if any(e[0] == 1000 for e in h):
